@@ -29,7 +29,7 @@ def run(rep, tier_, rng):
     from mpmath import mp
     obligations, discharged, trusted, cmds = proof_side(rep, "C24")
     quick = tier_ == "quick"
-    per_call = 20 if quick else 60
+    per_call = 10 if quick else 60
     hard = 90 if quick else 1200
     precs = [10, 24, 53, 200] if quick else [10, 15, 24, 53, 113, 200, 400, 1000, 3000]
     n_each = 1 if quick else 4
@@ -37,13 +37,16 @@ def run(rep, tier_, rng):
     documented = (ValueError, ZeroDivisionError, NotImplementedError, mpmath.libmp.NoConvergence, TypeError, OverflowError)
     p0 = mp.prec
     t_start = time.time()
+    slow_by_name = {}
     def attempt(name, args, thunk, prec):
         nonlocal calls, returned
+        if slow_by_name.get(name, 0) >= 3:
+            return           # three calls of this function are already queued for the solo re-run: more would only cost time
         calls += 1
         try:
             sweep.call_with_timeout(thunk, per_call); returned += 1
         except sweep.CallTimeout:
-            slow.append((name, prec, [repr(a) for a in args]))
+            slow.append((name, prec, [repr(a) for a in args])); slow_by_name[name] = slow_by_name.get(name, 0) + 1
         except documented as e:
             raised[type(e).__name__] = raised.get(type(e).__name__, 0) + 1
         except Exception as e:
